@@ -638,6 +638,7 @@ func c11RunRandom(c *mon.Ctx, per int) {
 			}
 			if ops[i].Op == "Validate" {
 				ops[i].Pre = r.Chance(1, 4)
+				ops[i].Pooled = r.Chance(1, 3)
 			}
 			if ops[i].On.Kind == "doc" && ops[i].Op == "Next3" {
 				ops[i].Doc = r.Range(1, 9) // the cursor stops after that many lexemes
